@@ -4,3 +4,4 @@ import PvModel.Props.C04
 #print axioms Pv.C04_disj_perm_mem
 #print axioms Pv.C04_disj_perm
 #print axioms Pv.C04_tree
+#print axioms Pv.C04_fd_conj_comm
